@@ -312,7 +312,7 @@ fn key_class(key: &str, ident: &str) -> &'static str {
 
 pub fn run(ctx: &Ctx, which: u8) -> (Spec, Report) {
     let id = if which == 1 { "C01" } else { "C02" };
-    let n_prog: usize = ctx.tier.pick(1200, 12000);
+    let n_prog: usize = ctx.tier.pick(2500, 20000);
     let seed = ctx.seed;
     // phase 1: generate
     let mut progs: Vec<Prog> = Vec::with_capacity(n_prog);
